@@ -151,6 +151,13 @@ Example C14_ex_too_large :
   chunk_limit < lenN d + 4 /\ lenN (repeat 0 (255 * 4096 - 4)) + 4 <= chunk_limit.
 Proof. vm_compute. split; [reflexivity|discriminate]. Qed.
 
+(* ---- tie to the source: Gen/Funcs.v is TRANSLATED from the Go code by tools/gotrans on every run:
+   the model's sec_of / cnt_of are sectorLoc on the int32 read back from the header word *)
+From GoMC Require Gen.Funcs Proofs.C14_tie.
+Theorem C14_sectorLoc_translated : forall o : N, (o < 2^32)%N ->
+  Funcs.region_sectorLoc (sx32 o) = (Z.of_N (sec_of o), Z.of_N (cnt_of o)).
+Proof. exact C14_tie.tie_sectorLoc. Qed.
+
 Print Assumptions C14_create.
 Print Assumptions C14_refines.
 Print Assumptions C14_refines_fresh.
@@ -167,3 +174,4 @@ Print Assumptions C14_reload.
 Print Assumptions C14_pad.
 Print Assumptions C14_find_space.
 Print Assumptions C14_file_semantics.
+Print Assumptions C14_sectorLoc_translated.
